@@ -378,7 +378,33 @@ def m_from(it, args, callee, depth):
     return NotImplemented
 
 
+def m_range_contains(it, args, callee, depth):
+    """Range / RangeInclusive ::contains(&x) on integers = lo <= x && x < hi (<= hi)"""
+    r, x = A.deref_all(it, args[0]), A.deref_all(it, args[1])
+    if not (isinstance(r, tuple) and r[0] == "adt" and "ops::range::Range" in r[1] and len(r[3]) >= 2):
+        return NotImplemented
+    kind = r[1].rsplit("::", 1)[-1]
+    if kind not in ("Range", "RangeInclusive"):
+        return NotImplemented
+    lo, hi = A.deref_all(it, r[3][0]), A.deref_all(it, r[3][1])
+    ty = "i32"
+    for t_ in (((callee or {}).get("args") or []) + [((callee or {}).get("full") or "")]):
+        for cand in TYPE_RANGE:
+            if cand in str(t_):
+                ty = cand
+    a = it.binop("Le", lo, x, ty)
+    b = it.binop("Lt" if kind == "Range" else "Le", x, hi, ty)
+    if a == 0 or b == 0:
+        return 0
+    if a == 1:
+        return b
+    if b == 1:
+        return a
+    return ("land", a, b)
+
+
 MODELS = {
+    "ops::range::Range::<Idx>::contains": m_range_contains, "ops::range::RangeInclusive::<Idx>::contains": m_range_contains,
     "core::cmp::Ord::max": m_minmax("max"), "core::cmp::Ord::min": m_minmax("min"), "core::cmp::Ord::clamp": m_clamp,
     "$>::abs": m_abs, "$>::rem_euclid": m_rem_euclid,
     "core::convert::From::from": m_from, "core::convert::Into::into": m_from,
